@@ -31,7 +31,7 @@ pub const DEF: CheckDef = CheckDef {
     id: "C16",
     run,
     technique: "deviation-bounded exhaustive enumeration of import configurations (all configurations with <= d non-default dimensions out of 13) x exhaustive enumeration of all statements of <= n rows over a configuration-dependent row alphabet x all same-day/next-day date patterns; each case is imported by the real code as a tree (import::import + Txn::to_double_entry) and as text (ImportCmd::run on real files), both compared posting by posting with a reference importer in exact rational arithmetic; for asset accounts with a running-balance column the printed text behind an opening transaction is run through report::process",
-    rule: "case = (configuration, statement). Configuration dimensions (default first): layout {index,label,template '{N}'} x delimiter {',',tab,';'} x skip.head {0,2} x date format {%Y/%m/%d,%Y-%m-%d,%d.%m.%Y} x value columns {amount, credit+debit} x commodity column {absent,present} x running-balance column {present,absent} x note column {absent,present} x charge column {absent,present} x account-level default conversion {none (no secondary_commodity column), rate/secondary_amount/secondary_commodity columns with no commodity.conversion (built-in price_of_secondary/extract), price_of_secondary/compute, price_of_primary/extract, price_of_primary/compute, disabled: true, built-in modes + `commodity: GBP` (a commodity no statement cell shows)} x rewrite-rule conversion on payee ^xfer {no rule, price_of_secondary/compute, price_of_primary/extract, disabled: true, price_of_primary/extract + `commodity: GBP`; the rule names the commodity itself when there is no secondary_commodity column} x account type {asset, liability} x row_order {old_to_new,new_to_old} (row_order is dimension 11, the rule dimension 12); ALL configurations with <= 2 (thorough <= 3) non-default dimensions. Statement: ALL sequences of <= 3 rows (thorough: <= 4 rows for configurations with <= 1 non-default dimension) over the alphabet {credit, debit, zero} + per present column {debit with empty balance cell, debit with a wrong balance; credit/debit in the other currency; credit/debit rows carrying the secondary cells (decided by the account default); credit/debit rows carrying the secondary cells AND matched by the rule (decided by the rule, over the default if any); a matched debit without secondary cells when the rule disables conversion; a matched conversion debit whose secondary-commodity cell is empty when the rule names the commodity; an unmatched debit with cells when there is no default; credit/debit with a charge; other-currency conversion debit; conversion debit with a charge} x EVERY assignment of same-day/next-day to rows 2..n; rows are written newest first when row_order=new_to_old. states = cases, transitions = transactions compared with RefImport (tree + text), validated = cases in which every judged value had exactly one acceptable answer",
+    rule: "case = (configuration, statement). Configuration dimensions (default first): layout {index,label,template '{N}'} x delimiter {',',tab,';'} x skip.head {0,2} x date format {%Y/%m/%d,%Y-%m-%d,%d.%m.%Y} x value columns {amount, credit+debit} x commodity column {absent,present} x running-balance column {present,absent} x note column {absent,present} x charge column {absent,present} x account-level default conversion {none (no secondary_commodity column), rate/secondary_amount/secondary_commodity columns with no commodity.conversion (built-in price_of_secondary/extract), price_of_secondary/compute, price_of_primary/extract, price_of_primary/compute, disabled: true, built-in modes + `commodity: GBP` (a commodity no statement cell shows)} x rewrite-rule conversion on payee ^xfer {no rule, price_of_secondary/compute, price_of_primary/extract, disabled: true, price_of_primary/extract + `commodity: GBP`; the rule names the commodity itself when there is no secondary_commodity column} x account type {asset, liability} x row_order {old_to_new,new_to_old} (row_order is dimension 11, the rule dimension 12); ALL configurations with <= 2 (thorough <= 3) non-default dimensions. Statement: ALL sequences of <= 3 rows (thorough: <= 4 rows for configurations with <= 1 non-default dimension) over the alphabet {credit, debit, zero} + per present column {debit with empty balance cell, debit with a wrong balance; credit/debit in the other currency; credit/debit rows carrying the secondary cells (decided by the account default); credit/debit rows carrying the secondary cells AND matched by the rule (decided by the rule, over the default if any); a matched debit without secondary cells when the rule disables conversion; a matched conversion debit whose secondary-commodity cell is empty when the rule names the commodity; an unmatched debit with cells when there is no default; credit/debit with a charge; other-currency conversion debit; conversion debit with a charge} x EVERY assignment of same-day/next-day to rows 2..n; rows are written newest first when row_order=new_to_old. PLUS date-less lines: for every configuration with <= 1 non-default dimension, and with 2 when one of them is row_order=new_to_old (thorough: every configuration with <= 2), ALL statements over {credit, debit} of the same length bound x all date patterns x ALL placements of one date-less line (all cells empty | only the payee cell filled) at any of the n+1 file positions, or two (empty then payee-only) at any positions g1 <= g2; such lines must produce no transaction and leave every dated row imported, oldest first, with the end-to-end clause unchanged. states = cases, transitions = transactions compared with RefImport (tree + text), validated = cases in which every judged value had exactly one acceptable answer",
     assumptions: &[
         "okane's ledger parser is trusted to read the printed text back (C05/C15 decide that); report::process is trusted as the book-keeping referee of the end-to-end clause (C01/C02 decide that)",
         "DON'T-CARE: the counter-posting value of a row with a non-zero charge when no statement-supplied secondary amount exists (either 'opposite amount' or 'opposite amount net of the charge' is accepted); existence and rate of the charge posting; the sign of the balance assertion for a liability account; order of postings inside a transaction; payee/account of the counter-posting",
@@ -541,6 +541,11 @@ struct RefStatement {
     final_balance: QMap,
     commodities: Vec<String>,
     has_wrong_balance: bool,
+    /// rows WITHOUT a date, in FILE order: (gap, kind). gap g = before the g-th data line of the file (g = n: after the
+    /// last); kind 0 = every cell empty, 1 = only the payee cell filled (a sub-total / separator line).
+    /// STATEMENT: "for every CSV row the imported transaction ..." - a line without a date is no transaction row; it
+    /// produces nothing and must not affect any other row.
+    dateless: Vec<(usize, u8)>,
 }
 
 fn ref_import(cfg: &Cfg, letters: &[Letter], same: &[bool]) -> RefStatement {
@@ -697,7 +702,7 @@ fn ref_import(cfg: &Cfg, letters: &[Letter], same: &[bool]) -> RefStatement {
     }
     let mut fb = running.clone();
     qmap_clean(&mut fb);
-    RefStatement { rows, final_balance: fb, commodities, has_wrong_balance: has_wrong }
+    RefStatement { rows, final_balance: fb, commodities, has_wrong_balance: has_wrong, dateless: vec![] }
 }
 
 /// "1234.5" -> "1,234.50"
@@ -761,18 +766,36 @@ fn csv_text(cfg: &Cfg, st: &RefStatement) -> String {
             .collect::<Vec<_>>()
             .join(&ds)
     };
-    if cfg.new_to_old() {
-        for r in st.rows.iter().rev() {
-            s.push_str(&line(r));
+    let data: Vec<String> = if cfg.new_to_old() { st.rows.iter().rev().map(|r| line(r)).collect() } else { st.rows.iter().map(|r| line(r)).collect() };
+    let dateless_line = |kind: u8| -> String { cols.iter().map(|(key, _)| if kind == 1 && *key == "payee" { quote("Sub-total") } else { String::new() }).collect::<Vec<_>>().join(&ds) };
+    for g in 0..=data.len() {
+        for (_, kind) in st.dateless.iter().filter(|(gap, _)| *gap == g) {
+            s.push_str(&dateless_line(*kind));
             s.push('\n');
         }
-    } else {
-        for r in &st.rows {
-            s.push_str(&line(r));
+        if let Some(l) = data.get(g) {
+            s.push_str(l);
             s.push('\n');
         }
     }
     s
+}
+
+/// All ways to put one or two date-less lines into a file of n data lines: one line (either kind) at any of the n+1
+/// gaps; two lines (an empty one, then a payee-only one) at any gaps g1 <= g2.
+fn dateless_patterns(n: usize) -> Vec<Vec<(usize, u8)>> {
+    let mut v = vec![];
+    for g in 0..=n {
+        for kind in 0..2u8 {
+            v.push(vec![(g, kind)]);
+        }
+    }
+    for g1 in 0..=n {
+        for g2 in g1..=n {
+            v.push(vec![(g1, 0), (g2, 1)]);
+        }
+    }
+    v
 }
 
 // ------------------------------------------------------------------------------------------
@@ -854,7 +877,7 @@ const FEE_ACCOUNT: &str = "Expenses:Commissions";
 
 /// Compare the imported transactions (oldest first) with RefImport. `via` = "tree" | "text".
 fn judge(via: &str, cfg: &Cfg, st: &RefStatement, got: &[ObsTxn]) -> Result<(), (String, String)> {
-    let order = if cfg.new_to_old() { "new-to-old" } else { "old-to-new" };
+    let order = format!("{}{}", if cfg.new_to_old() { "new-to-old" } else { "old-to-new" }, if st.dateless.is_empty() { "" } else { "/dateless-row" });
     if got.len() != st.rows.len() {
         return Err((format!("{}/row-count/{}", via, order), format!("{} rows in the statement, {} transactions imported", st.rows.len(), got.len())));
     }
@@ -1073,6 +1096,9 @@ fn run_case(cfg: &Cfg, cfg_index: usize, entry: &icfg::ConfigEntry, files: &File
         if st.rows.iter().any(|r| r.letter.kind == Kind::Zero) {
             fl.push("zero-row");
         }
+        if !st.dateless.is_empty() {
+            fl.push("dateless-row");
+        }
         if fl.is_empty() {
             "plain".to_string()
         } else {
@@ -1163,11 +1189,30 @@ fn run_case(cfg: &Cfg, cfg_index: usize, entry: &icfg::ConfigEntry, files: &File
             }
         }
     };
-    let class = format!("{}/{}/{}{}", acct, cfg.conv_name(), e2e, if definite { "" } else { "/partly-dont-care" });
+    let class = if st.dateless.is_empty() {
+        format!("{}/{}/{}{}", acct, cfg.conv_name(), e2e, if definite { "" } else { "/partly-dont-care" })
+    } else {
+        format!("{}/with-dateless-lines/{}", acct, e2e)
+    };
     if definite {
         *validated += 1;
     }
     Outcome::pass(class)
+}
+
+fn one_case(ctx: &mut Ctx, cfg: &Cfg, ci: usize, entry: &icfg::ConfigEntry, files: &Files, yaml: &str, st: RefStatement) {
+    let csv = csv_text(cfg, &st);
+    let mut transitions = 0u64;
+    let mut validated = 0u64;
+    ctx.case(
+        || {
+            let names: Vec<String> = st.rows.iter().map(|r| format!("{}@{}", r.letter.name(), r.date)).collect();
+            format!("config #{} [{}], statement [{}]{}\n--- config\n{}--- csv\n{}", ci, cfg.describe(), names.join(", "), if st.dateless.is_empty() { String::new() } else { format!(", date-less lines (file gap, kind) {:?}", st.dateless) }, yaml, csv)
+        },
+        || run_case(cfg, ci, entry, files, &st, &csv, &mut transitions, &mut validated),
+    );
+    ctx.count("transitions", transitions);
+    ctx.count("validated", validated);
 }
 
 fn run(ctx: &mut Ctx) {
@@ -1184,7 +1229,11 @@ fn run(ctx: &mut Ctx) {
     let cfgs = configs(d);
     let mut files = Files::new();
     let mut total_statements = 0u64;
+    let mut total_dateless = 0u64;
     let mut max_alpha = 0usize;
+    // date-less lines are explored for configurations with <= 1 deviation, and with 2 deviations when one of them is
+    // row_order=new_to_old (thorough: all configurations with <= 2 deviations)
+    let dateless_for = |c: &Cfg| -> bool { c.deviations() <= 1 || (c.deviations() == 2 && (c.new_to_old() || ctx_tier_is_thorough)) };
     for (ci, cfg) in cfgs.iter().enumerate() {
         let alpha = alphabet(cfg);
         max_alpha = max_alpha.max(alpha.len());
@@ -1194,37 +1243,51 @@ fn run(ctx: &mut Ctx) {
         total_statements += n_stmt;
         let yaml = config_yaml(cfg);
         let mut entry: Option<icfg::ConfigEntry> = None;
-        for k in 0..n_stmt {
-            if !ctx.next_is_mine() {
-                ctx.skip_cases(1);
-                continue;
-            }
+        let prepare = |entry: &mut Option<icfg::ConfigEntry>, files: &mut Files| {
             if entry.is_none() {
                 let set = icfg::load_from_yaml(yaml.as_bytes()).unwrap_or_else(|e| panic!("harness bug: configuration does not load: {}\n{}", err_chain(&e), yaml));
                 let e = set.select(std::path::Path::new("/x/c16stmt.csv")).expect("harness bug: select").expect("harness bug: no matching configuration");
-                entry = Some(e);
+                *entry = Some(e);
             }
             if files.written_cfg != Some(ci) {
                 std::fs::write(files.dir.join(format!("cfg{}.yml", ci)), &yaml).expect("scratch config");
                 files.written_cfg = Some(ci);
             }
+        };
+        for k in 0..n_stmt {
+            if !ctx.next_is_mine() {
+                ctx.skip_cases(1);
+                continue;
+            }
+            prepare(&mut entry, &mut files);
             let (li, same) = decode_statement(k, a, max_rows);
             let letters: Vec<Letter> = li.iter().map(|i| alpha[*i]).collect();
             let st = ref_import(cfg, &letters, &same);
-            let csv = csv_text(cfg, &st);
-            let mut transitions = 0u64;
-            let mut validated = 0u64;
-            let entry_ref = entry.as_ref().unwrap();
-            let desc_cfg = cfg.describe();
-            ctx.case(
-                || {
-                    let names: Vec<String> = st.rows.iter().map(|r| format!("{}@{}", r.letter.name(), r.date)).collect();
-                    format!("config #{} [{}], statement [{}]\n--- config\n{}--- csv\n{}", ci, desc_cfg, names.join(", "), yaml, csv)
-                },
-                || run_case(cfg, ci, entry_ref, &files, &st, &csv, &mut transitions, &mut validated),
-            );
-            ctx.count("transitions", transitions);
-            ctx.count("validated", validated);
+            one_case(ctx, cfg, ci, entry.as_ref().unwrap(), &files, &yaml, st);
+        }
+        // date-less lines (blank / sub-total rows) at every position: statements over {credit, debit} only
+        if !dateless_for(cfg) {
+            continue;
+        }
+        for n in 0..=max_rows {
+            let pats = dateless_patterns(n as usize);
+            let n_stmt = statements_of_len(2, n);
+            let offset: u64 = (0..n).map(|m| statements_of_len(2, m)).sum();
+            total_dateless += n_stmt * pats.len() as u64;
+            for k in 0..n_stmt {
+                for pat in &pats {
+                    if !ctx.next_is_mine() {
+                        ctx.skip_cases(1);
+                        continue;
+                    }
+                    prepare(&mut entry, &mut files);
+                    let (li, same) = decode_statement(offset + k, 2, max_rows);
+                    let letters: Vec<Letter> = li.iter().map(|i| alpha[*i]).collect();
+                    let mut st = ref_import(cfg, &letters, &same);
+                    st.dateless = pat.clone();
+                    one_case(ctx, cfg, ci, entry.as_ref().unwrap(), &files, &yaml, st);
+                }
+            }
         }
     }
     ctx.fact("configurations", cfgs.len() as u64);
@@ -1233,6 +1296,7 @@ fn run(ctx: &mut Ctx) {
     ctx.fact("max_rows_for_configurations_with_2_or_more_deviations", 3u64);
     ctx.fact("max_alphabet", max_alpha as u64);
     ctx.fact("config_x_statement", total_statements);
+    ctx.fact("config_x_statement_x_dateless_pattern", total_dateless);
     for k in 0..=d {
         ctx.fact(&format!("configurations_with_{}_deviations", k), cfgs.iter().filter(|c| c.deviations() == k).count() as u64);
     }
